@@ -19,7 +19,7 @@ props.prop(
                 'them; e.g. values on interior bin edges falling into the lower bin is a known numeric defect outside its reach',
     assumptions=['numpy reducers compute what their names say'])
 props.also('C10',
-           'that the emptiness count of the NaN-aware sum counts not-NaN values; that the result is padded back to the full shape exactly when the values were cut to the minimal sub-array')
+           'that the emptiness count of the NaN-aware sum counts not-NaN values; that the result is padded back to the full shape exactly when the values were cut to the minimal sub-array; that views of categorical arrays inherit the categories of the full array (C04.d)')
 
 PLAIN = {'minimum': {'numpy.min', 'numpy.amin'}, 'maximum': {'numpy.max', 'numpy.amax'}, 'mean': {'numpy.mean'},
          'median': {'numpy.median'}, 'sum': {'numpy.sum'}, 'percentile': {'numpy.percentile'}}
